@@ -183,7 +183,10 @@ func nestedProbe(L *lua.LState, bad *[]string) {
 		r1, k1, _ := pcall(L, f)
 		r2, k2, _ := pcall(L, f)
 		r3, k3, _ := pcall(L, f)
-		expect("gmatch", "ok,1;ok,2;ok,nil", nil, k1+","+str(r1)+";"+k2+","+str(r2)+";"+k3+","+str(r3))
+		if len(r3) == 1 && r3[0] == lua.LNil {
+			r3 = nil // "no more matches" is no value (5.1's gmatch_aux) or a nil
+		}
+		expect("gmatch", "ok,1;ok,2;ok,", nil, k1+","+str(r1)+";"+k2+","+str(r2)+";"+k3+","+str(r3))
 	} else {
 		expect("gmatch", "one iterator", nil, kind)
 	}
